@@ -3,6 +3,10 @@ import PetgraphModel.Spec.MatrixSimpleGraph
 import PetgraphModel.Proofs.Matrix
 import PetgraphModel.Proofs.MatrixGraph
 import PetgraphModel.Extracted.Matrix
+import PetgraphModel.Proofs.C04W5Order
+import PetgraphModel.Proofs.C04W5Extend
+import PetgraphModel.Proofs.C04W5Zero
+import PetgraphModel.Proofs.C04W5Probe
 /-
 C04 — `MatrixGraph` stays a faithful simple graph across growth, removal and id reuse.
 
@@ -23,6 +27,19 @@ Reading guide (clauses of the property → theorems)
 * "an undirected edge is visible from both endpoints": `C04_undirected_symmetric`;
 * the documented panics / errors: `C04_notzero_rejects_zero`, `C04_add_node_limit`,
   `C04_try_update_between_live`, `C04_no_fault`.
+
+Wave 5:
+* iteration ORDER of every observer (ascending ids, row-major edges): `C04_order_spec` (what the ordered
+  observers of the simple graph are), `C04_iteration_order`, `C04_iteration_order_all_histories`;
+* growth policy and exact capacities: `C04_next_power_of_two`, `C04_with_capacity_exact`,
+  `C04_capacity_policy`, `C04_capacity_after_call`; `extend_with_edges` / `from_edges`:
+  `C04_extend_fuel_suffices`, `C04_extend_with_edges`, `C04_from_edges`,
+  `C04_extend_with_edges_vacancy_false_witness`, `C04_extend_with_edges_contig_false_witness`,
+  `C04_histories_from_any_state`;
+* outside the quantifier, what the model (= the code) does: `C04_zero_through_mut` (the sentinel written
+  through `edge_weight_mut` of a `NotZero` graph), `C04_probe_undone` (the harness' probe lines);
+* run-time checks of the hypotheses (section at the end): `C04_valid_check`, `C04_valid_hist_check`,
+  `C04_noVacancy_check`, `C04_contig_check`, `C04_notEdge_check`, `C04_zeroMut_check`.
 -/
 namespace PetgraphModel.C04T
 open PetgraphModel PetgraphModel.Matrix PetgraphModel.MatrixSpec PetgraphModel.MatrixProofs
@@ -369,9 +386,6 @@ def exampleOps : List Op :=
   [.addNode 10, .addNode 11, .addNode 12, .addEdge 0 1 5, .updateEdge 1 2 7, .removeNode 1, .addNode 13,
    .tryUpdateEdge 2 1 3]
 
-instance (nz : Bool) (g : G) (op : Op) : Decidable (MatrixProofs.Valid nz g op) := by
-  cases op <;> unfold MatrixProofs.Valid <;> infer_instance
-
 instance : ∀ (ops : List Op) (s : State) (g : G), Decidable (MatrixProofs.ValidHist s g ops)
   | [], _, _ => isTrue trivial
   | op :: ops, s, g =>
@@ -386,5 +400,323 @@ example : withCapacity true false 255 3 = .ok exampleInit := by decide
 example : ValidHist exampleInit (G.empty true) exampleOps := by decide
 example : (run exampleInit exampleOps).2 =
     [.id 0, .id 1, .id 2, .unit, .optW none, .w 11, .id 1, .resOk none] := by decide
+
+/-! ## wave 5 — iteration order -/
+
+/-- **what the ordered observers of the simple graph are** (`Spec/MatrixMachine.lean`; no matrix, no
+capacity): `idsAsc` = the live ids, strictly ascending; `nodesAsc` = the (id, weight) pairs of the nodes;
+`succAsc a` / `predAsc a` = the (other endpoint, weight) pairs of the edges from / to `a`, strictly
+ascending in the other endpoint; `edgeRefsAsc` = the edges, each once under its normalised key, strictly
+ascending in `(source, target)` (row-major). -/
+theorem C04_order_spec {g : G} (hwf : g.WF) :
+    (g.idsAsc.Pairwise (· < ·) ∧ ∀ x, x ∈ g.idsAsc ↔ g.live x = true) ∧
+    (g.nodesAsc.map (·.1) = g.idsAsc ∧ ∀ p, p ∈ g.nodesAsc ↔ g.nodeWeight p.1 = some p.2) ∧
+    (∀ a, (g.succAsc a).Pairwise (fun p q => p.1 < q.1) ∧ ∀ p, p ∈ g.succAsc a ↔ g.weight a p.1 = some p.2) ∧
+    (∀ a, (g.predAsc a).Pairwise (fun p q => p.1 < q.1) ∧ ∀ p, p ∈ g.predAsc a ↔ g.weight p.1 a = some p.2) ∧
+    ((g.edgeRefsAsc.map fun t => ((t.1, t.2.1), t.2.2)).Perm g.edges ∧
+      g.edgeRefsAsc.Pairwise (fun t t' => t.1 < t'.1 ∨ (t.1 = t'.1 ∧ t.2.1 < t'.2.1))) := by
+  refine ⟨⟨idsAsc_sorted hwf, mem_idsAsc g⟩, ⟨?_, mem_nodesAsc g⟩,
+    fun a => ⟨succAsc_sorted hwf a, mem_succAsc hwf a⟩, fun a => ⟨predAsc_sorted hwf a, mem_predAsc hwf a⟩,
+    edgeRefsAsc_spec hwf⟩
+  -- every live id has a weight, so `nodesAsc` keeps every id
+  unfold G.nodesAsc
+  have : ∀ l : List Nat, (∀ i ∈ l, g.live i = true) →
+      (l.filterMap fun i => (g.nodeWeight i).map fun w => (i, w)).map (·.1) = l := by
+    intro l
+    induction l with
+    | nil => intro _; rfl
+    | cons i l ih =>
+      intro hl
+      have hi := hl i List.mem_cons_self
+      rw [Spec.live_iff] at hi
+      cases hw : g.nodeWeight i with
+      | none => rw [hw] at hi; cases hi
+      | some w =>
+        rw [List.filterMap_cons, hw]
+        simp only [Option.map_some, List.map_cons]
+        rw [ih (fun j hj => hl j (List.mem_cons_of_mem _ hj))]
+  exact this _ (fun i hi => (mem_idsAsc g i).1 hi)
+
+/-- **every observer iterates in the determined order**: in every state that satisfies the invariant and
+describes the simple graph `g`, the mirror's `iter_ids` / `node_references` / `neighbors` / `edges` /
+`edges_directed` / `neighbors_directed` / `edge_references` are — as LISTS — the ordered observers of `g`.
+(`edges_directed(a, Incoming)` yields `(a, source, w)`: the orientation is finding D6 of C06; the order
+of the sources is the ascending one.) -/
+theorem C04_iteration_order {s : State} {g : G} (h : Inv s) (r : R s g) :
+    s.nodes.ids = g.idsAsc ∧ nodeRefs s = g.nodesAsc ∧
+    (∀ a, neighborsOut s a = (g.succAsc a).map (·.1)) ∧
+    (∀ a, edgesOut s a = (g.succAsc a).map fun p => (a, p.1, p.2)) ∧
+    (∀ a, neighborsIn s a = (g.predAsc a).map (·.1)) ∧
+    (∀ a, edgesIn s a = (g.predAsc a).map fun p => (a, p.1, p.2)) ∧
+    edgeRefs s = g.edgeRefsAsc :=
+  ⟨ids_eq_idsAsc h r, nodeRefs_eq_nodesAsc h r, neighborsOut_eq_succAsc h r, edgesOut_eq_succAsc h r,
+    neighborsIn_eq_predAsc h r, edgesIn_eq_predAsc h r, edgeRefs_eq_edgeRefsAsc r⟩
+
+/-- … **for all histories**: from any constructor, after any finite call sequence inside the quantifier,
+every iterator of the final state is the ordered observer of the simple graph the sequence describes. -/
+theorem C04_iteration_order_all_histories (dir nz : Bool) (ixMax k : Nat) (ops : List Op) :
+    ∃ s0, withCapacity dir nz ixMax k = .ok s0 ∧
+      (ValidHist s0 (G.empty dir) ops →
+        let s := (run s0 ops).1
+        let g := absRun s0 (G.empty dir) ops
+        s.nodes.ids = g.idsAsc ∧ nodeRefs s = g.nodesAsc ∧
+        (∀ a, neighborsOut s a = (g.succAsc a).map (·.1)) ∧
+        (∀ a, edgesOut s a = (g.succAsc a).map fun p => (a, p.1, p.2)) ∧
+        (∀ a, neighborsIn s a = (g.predAsc a).map (·.1)) ∧
+        (∀ a, edgesIn s a = (g.predAsc a).map fun p => (a, p.1, p.2)) ∧
+        edgeRefs s = g.edgeRefsAsc) := by
+  obtain ⟨s0, e, hi, hr, _⟩ := withCapacity_spec dir nz ixMax k
+  refine ⟨s0, e, fun hv => ?_⟩
+  obtain ⟨h1, r1, _⟩ := run_refines ops s0 _ hi hr hv
+  exact C04_iteration_order h1 r1
+
+/-- edges added in an order that is not the iteration order -/
+def exampleOrderOps : List Op :=
+  [.addNode 10, .addNode 11, .addNode 12, .addEdge 2 1 7, .addEdge 2 0 8, .addEdge 0 2 5, .addEdge 0 1 6]
+
+example : ValidHist exampleInit (G.empty true) exampleOrderOps := by decide
+example : edgeRefs (run exampleInit exampleOrderOps).1 = [(0, 1, 6), (0, 2, 5), (2, 0, 8), (2, 1, 7)] := by decide
+example : (absRun exampleInit (G.empty true) exampleOrderOps).edges =
+    [((0, 1), 6), ((0, 2), 5), ((2, 0), 8), ((2, 1), 7)] := by decide
+
+/-! ## wave 5 — growth policy, exact capacities, `extend_with_edges`, `from_edges` -/
+
+/-- `usize::next_power_of_two` (the model's `nextPow2`, the parameter of the extracted growth rule): a
+power of two, not smaller than `n`, and the LEAST such (for `n = 0` it is `1`). -/
+theorem C04_next_power_of_two (n : Nat) :
+    (∃ k, nextPow2 n = 2 ^ k) ∧ n ≤ nextPow2 n ∧ (∀ m, n ≤ 2 ^ m → nextPow2 n ≤ 2 ^ m) ∧ nextPow2 0 = 1 :=
+  ⟨isPow2_nextPow2 n, le_nextPow2 n, nextPow2_min n, rfl⟩
+
+/-- **`with_capacity(k)` is exact** in both layouts (`exact = true`: no growth rule): capacity `k`, vector
+of `k²` (directed) / `k(k+1)/2` (undirected) null cells. -/
+theorem C04_with_capacity_exact (dir nz : Bool) (ixMax k : Nat) :
+    ∃ s, withCapacity dir nz ixMax k = .ok s ∧ s.cap = k ∧ s.adj.size = adjSize dir k :=
+  withCapacity_cap dir nz ixMax k
+
+/-- **the growth policy** (`extend_capacity_for_edge` → `extend_capacity_for_node(max(a, b), false)`):
+nothing happens while both ids are below the capacity; otherwise a directed matrix grows to the EXTRACTED
+rule `max((max(a, b) + 1).next_power_of_two(), MIN_CAPACITY)` and an undirected one to exactly
+`max(a, b) + 1`; the capacity never shrinks. -/
+theorem C04_capacity_policy {s : State} (h : Inv s) (a b : Nat) :
+    ∃ s1, extendForEdge s a b = .ok s1 ∧
+      s1.cap = (if max a b < s.cap then s.cap
+                else if s.dir then Extracted.Matrix.grow nextPow2 (max a b + 1) else max a b + 1) ∧
+      s.cap ≤ s1.cap ∧ max a b < s1.cap := by
+  obtain ⟨s1, e, hc⟩ := extendForEdge_cap h a b
+  obtain ⟨s1', e', _, hlt, _⟩ := extendForEdge_spec h a b
+  rw [e] at e'
+  injection e' with e'
+  subst e'
+  exact ⟨s1, e, hc, by rw [hc]; exact cap_le_capFor _ _ _ _, hlt⟩
+
+/-- **exact capacity after every call** of a valid history: the six edge-writing calls make room for
+their pair by the policy above (whether or not they then panic on a rejected zero / an existing edge),
+every other call — removals, `clear`, node calls — leaves the capacity alone. -/
+theorem C04_capacity_after_call {s : State} {g : G} (h : Inv s) (r : R s g) (op : Op) (hv : Valid s.nz g op) :
+    (step s op).1.cap = capAfter s.dir s.cap op ∧ s.cap ≤ (step s op).1.cap := by
+  have := step_cap h r op hv
+  refine ⟨this, ?_⟩
+  rw [this]
+  cases op <;> first | exact Nat.le_refl _ | exact cap_le_capFor _ _ _ _
+
+example : capAfter true 3 (.addEdge 0 5 1) = 8 ∧ capAfter false 3 (.addEdge 0 5 1) = 6 ∧
+    capAfter true 3 (.addEdge 0 2 1) = 3 ∧ capAfter true 0 (.addEdge 0 0 1) = 4 ∧
+    capAfter true 9 (.removeNode 2) = 9 := by decide
+
+/-- **the fuel of the model's `while nx >= node_count() { add_node(default) }` loop suffices**, in every
+state (vacancies or not): when the loop ends normally within `nx + 1 - node_count` rounds the condition of
+the real `while` is false. -/
+theorem C04_extend_fuel_suffices {s s' : State} (h : Inv s) (nx : Nat)
+    (e : addNodesUpTo nx (nx + 1 - s.nodes.len) s = (s', .unit)) : nx < s'.nodes.len :=
+  addNodesUpTo_fuel nx _ s s' h.ids e (Nat.le_refl _)
+
+/-- **`extend_with_edges` on a graph without vacancy** (`node_bound() = node_count()`: the live ids are
+`0..n`), for EVERY list of elements: it answers as `specExtend` (per element: the nodes
+`n, …, max(a, b)` are added with the default weight, then `add_edge`; `panic` at the node limit, on a
+rejected zero, on an existing edge), never faults, re-establishes invariant and relation and leaves no
+vacancy. -/
+theorem C04_extend_with_edges {s : State} {g : G} (h : Inv s) (r : R s g) (hrem : s.nodes.removed = [])
+    (es : List (Nat × Nat × Int)) :
+    ∃ s', extendWithEdges s es = (s', (specExtend s.nz s.ixMax g es).2) ∧
+      Inv s' ∧ R s' (specExtend s.nz s.ixMax g es).1 ∧ s'.nodes.removed = [] := by
+  obtain ⟨s', g', e1, e2, h1, r1, hrem1, _⟩ := extendWithEdges_spec es s g h r hrem
+  exact ⟨s', e1, h1, by rw [e2]; exact r1, hrem1⟩
+
+/-- **`from_edges`** (`default()` then `extend_with_edges`), for every list of elements and every
+configuration. -/
+theorem C04_from_edges (dir nz : Bool) (ixMax : Nat) (es : List (Nat × Nat × Int)) :
+    ∃ s', fromEdges dir nz ixMax es = (s', (specExtend nz ixMax (G.empty dir) es).2) ∧
+      Inv s' ∧ R s' (specExtend nz ixMax (G.empty dir) es).1 ∧ s'.nodes.removed = [] := by
+  obtain ⟨s', e, h, r, hrem, _⟩ := fromEdges_spec dir nz ixMax es
+  exact ⟨s', e, h, r, hrem⟩
+
+example : (fromEdges false true 255 [(0, 1, 2), (1, 0, 3)]).2 = .panic ∧
+    (fromEdges true true 255 [(0, 1, 2)]).2 = .unit ∧
+    (specExtend true 255 (G.empty false) [(0, 3, 2), (5, 1, 7)]).1.nodeCount = 6 := by
+  decide
+
+/-- the hypothesis "no vacancy" cannot be dropped: **with a vacancy the statement is false**.  Three
+nodes, node 0 removed; `extend_with_edges([(0, 1, 5)])` adds no node (`node_count() = 2 > 1`) and
+`add_edge(0, 1)` writes an edge at the vacant id 0: `edge_count() = 1`, `has_edge(0, 1)`, but node 0 does
+not exist — the state describes no simple graph.  (`update_edge`/`add_edge` are documented to panic "if
+any of the nodes don't exist" and do not; reported, outside this property's quantifier.) -/
+theorem C04_extend_with_edges_vacancy_false_witness :
+    Inv vacancyState ∧ (∃ g, R vacancyState g) ∧
+    (extendWithEdges vacancyState [(0, 1, 5)]).2 = .unit ∧
+    (extendWithEdges vacancyState [(0, 1, 5)]).1.nodes.get 0 = none ∧
+    hasEdge (extendWithEdges vacancyState [(0, 1, 5)]).1 0 1 = true ∧
+    (extendWithEdges vacancyState [(0, 1, 5)]).1.nbEdges = 1 ∧
+    ∀ g, ¬ R (extendWithEdges vacancyState [(0, 1, 5)]).1 g := by
+  obtain ⟨h1, h2, h3, h4, h5⟩ := extend_with_vacancy_witness
+  have hv : ValidHist { dir := true, nz := false, ixMax := 255 } (G.empty true)
+      [.addNode 0, .addNode 0, .addNode 0, .removeNode 0] := by decide
+  obtain ⟨s0, e0, hi0, hr0, _⟩ := withCapacity_spec true false 255 0
+  have hs0 : s0 = { dir := true, nz := false, ixMax := 255 } := by
+    have : withCapacity true false 255 0 = .ok { dir := true, nz := false, ixMax := 255 } := by decide
+    rw [this] at e0; injection e0 with e0; exact e0.symm
+  subst hs0
+  obtain ⟨hi, hr, _⟩ := run_refines _ _ _ hi0 hr0 hv
+  exact ⟨hi, ⟨_, hr⟩, h1, h2, by rw [hasEdge_eq, h3]; rfl, h4, h5⟩
+
+/-- five nodes, then nodes 1, 2, 4, 3 removed: the live ids are `0..1` again, but `removed_ids` still holds
+1 and 2 (`node_bound() = 3 ≠ 1 = node_count()`) -/
+def junkHist : List Op :=
+  [.addNode 0, .addNode 0, .addNode 0, .addNode 0, .addNode 0, .removeNode 1, .removeNode 2, .removeNode 4,
+   .removeNode 3]
+/-- the state that history reaches (`junk_reached`) -/
+def junkState : State :=
+  { dir := true, nz := false, ixMax := 255,
+    nodes := { elements := #[some 0, none, none, none, none], upperBound := 3, removed := [2, 1] } }
+
+theorem junk_reached : (run { dir := true, nz := false, ixMax := 255 } junkHist).1 = junkState := by decide
+
+/-- … and "the live ids are `0..n`" is not enough either: **"no vacancy" must be `node_bound() =
+node_count()`**.  Here the ids are `0..1`, `extend_with_edges([(0, 1, 5)])` adds ONE node — `add_node` pops
+the most recently vacated id, 2 — and writes the edge `(0, 1)` although node 1 does not exist.  (This is
+why the driver checks `noVacancyB` on the mirror and `node_count = node_bound` of the implementation, not
+only `contigB`.) -/
+theorem C04_extend_with_edges_contig_false_witness :
+    (run { dir := true, nz := false, ixMax := 255 } junkHist).1 = junkState ∧
+    contigB (absRun { dir := true, nz := false, ixMax := 255 } (G.empty true) junkHist) = true ∧
+    noVacancyB junkState = false ∧
+    (extendWithEdges junkState [(0, 1, 5)]).2 = .unit ∧
+    (extendWithEdges junkState [(0, 1, 5)]).1.nodes.ids = [0, 2] ∧
+    hasEdge (extendWithEdges junkState [(0, 1, 5)]).1 0 1 = true := by
+  refine ⟨junk_reached, ?_, by decide, by decide, by decide, by decide⟩
+  unfold contigB G.idsAsc
+  have h1 : (absRun { dir := true, nz := false, ixMax := 255 } (G.empty true) junkHist).ids = [0] := by decide
+  have h2 : (absRun { dir := true, nz := false, ixMax := 255 } (G.empty true) junkHist).nodeCount = 1 := by
+    decide
+  rw [h1, h2, List.mergeSort_singleton]
+  rfl
+
+/-- **histories compose**: from ANY state inside the invariant that describes a simple graph (after a
+constructor, after `from_edges`, after an `extend_with_edges`, after a probe), every further call
+sequence inside the quantifier keeps invariant and relation and answers as the abstract machine. -/
+theorem C04_histories_from_any_state {s : State} {g : G} (h : Inv s) (r : R s g) (ops : List Op)
+    (hv : ValidHist s g ops) :
+    Inv (run s ops).1 ∧ R (run s ops).1 (absRun s g ops) ∧ (run s ops).2 = absOuts s g ops :=
+  run_refines ops s g h r hv
+
+/-! ## wave 5 — outside the quantifier: what the model (= the code) does -/
+
+/-- **a zero written through `edge_weight_mut` / `IndexMut` of a `NotZero` graph** (outside the documented
+use of `NotZero`, excluded by `Valid`): `NotZero(0)` is the null element, so the edge is erased — every edge
+observer afterwards describes `g.removeEdge a b` and the representation invariant still holds — but
+`nb_edges` is not told: `edge_count()` still counts the erased edge, one more than `edge_references()`
+yields, and the state describes no simple graph any more.  (Observed on the real code by the `zprobe`
+lines of the harness, which compare exactly these four observations.) -/
+theorem C04_zero_through_mut {s : State} {g : G} (h : Inv s) (r : R s g) (hnz : s.nz = true) {a b : Nat}
+    {v : Int} (he : g.weight a b = some v) :
+    ∃ s', setEdgeWeight s a b 0 = (s', .unit) ∧ Inv s' ∧
+      (∀ x y, getEdgeWeight s' x y = (g.removeEdge a b).weight x y) ∧
+      s'.nodes = s.nodes ∧ s'.cap = s.cap ∧
+      s'.nbEdges = g.edgeCount ∧ (g.removeEdge a b).edgeCount + 1 = g.edgeCount ∧
+      (edgeRefs s').length + 1 = s'.nbEdges ∧ (∀ g', ¬ R s' g') :=
+  zero_through_mut h r hnz he
+
+/-- a `NotZero` state with one edge: `add_node(1)`, `add_node(2)`, `add_edge(0, 1, 5)` -/
+def exampleNz : State :=
+  { dir := true, nz := true, ixMax := 255, cap := 4, nbEdges := 1,
+    adj := #[none, some 5, none, none, none, none, none, none, none, none, none, none, none, none, none, none],
+    nodes := { elements := #[some 1, some 2], upperBound := 2 } }
+
+example : (run { dir := true, nz := true, ixMax := 255 } [.addNode 1, .addNode 2, .addEdge 0 1 5]).1 = exampleNz := by
+  decide
+
+example : (setEdgeWeight exampleNz 0 1 0).2 = .unit ∧ hasEdge (setEdgeWeight exampleNz 0 1 0).1 0 1 = false ∧
+    (setEdgeWeight exampleNz 0 1 0).1.nbEdges = 1 ∧ (edgeRefs (setEdgeWeight exampleNz 0 1 0).1).length = 0 := by
+  decide
+
+/-- **the harness' probe lines are undone**: each of the six edge-writing calls on a pair that is not an
+edge — in particular with an endpoint that is not a live node, outside the quantifier — followed by
+`try_remove_edge` of the same pair leaves a state inside the invariant that describes the SAME simple
+graph (the matrix may have grown, invisibly), so the judged history goes on inside the scope of
+`C04_histories_from_any_state`. -/
+theorem C04_probe_undone {s : State} {g : G} (h : Inv s) (r : R s g) (a b : Nat) (w : Int)
+    (hno : g.weight a b = none) (op : Op)
+    (hop : op = .addEdge a b w ∨ op = .updateEdge a b w ∨ op = .tryUpdateEdge a b w ∨
+      op = .addOrUpdateEdge a b w ∨ op = .buildAddEdge a b w ∨ op = .buildUpdateEdge a b w) :
+    Inv (probeState s op a b) ∧ R (probeState s op a b) g :=
+  probe_undone h r a b w hno op hop
+
+example : (probeState exampleInit (.updateEdge 7 1 4) 7 1).cap = 8 ∧
+    (probeState exampleInit (.updateEdge 7 1 4) 7 1).nbEdges = 0 := by decide
+
+/-! ## run-time checks of the hypotheses
+
+The hypotheses of the theorems above that concern the concrete case are
+* `Valid s.nz g op` per call / `ValidHist` per history (`C04_refines_step`, `C04_all_histories`,
+  `C04_no_fault`, `C04_capacity_after_call`, `C04_iteration_order_all_histories`),
+* `s.nodes.removed = []` (`C04_extend_with_edges`),
+* `g.weight a b = none` (`C04_probe_undone`),
+* `s.nz = true` and `g.weight a b = some v` (`C04_zero_through_mut`).
+`Inv s` and `R s g` are CONSEQUENCES along the judged history (`C04_all_histories`, `C04_from_edges`,
+`C04_extend_with_edges`, `C04_probe_undone`, `C04_histories_from_any_state`), liveness of the endpoints
+(`C04_notzero_rejects_zero`, `C04_try_update_between_live`) is part of `Valid`, `g.nodeCount = ixMax` or
+not (`C04_add_node_limit`, `C04_reused_id_isolated`) is a case split the driver makes with `specStep`, and
+the arithmetic hypotheses (`r, c < w`, `old < new`, …) quantify over the model's internals, not over the
+case.  The driver evaluates the Booleans below (`Spec/MatrixMachine.lean`) before it judges the call; they
+restrict the generated input only, so a failure is answered `SPECFAIL generator left the proved range`. -/
+
+theorem C04_valid_check (nz : Bool) (g : G) (op : Op) (h : validB nz g op = true) : Valid nz g op :=
+  of_decide_eq_true h
+
+/-- … and the check rejects nothing that is inside the quantifier -/
+theorem C04_valid_complete (nz : Bool) (g : G) (op : Op) (h : Valid nz g op) : validB nz g op = true :=
+  decide_eq_true h
+
+/-- the per-call checks along a history are exactly `ValidHist` -/
+theorem C04_valid_hist_check : ∀ (ops : List Op) (s : State) (g : G),
+    validHistB s g ops = true ↔ ValidHist s g ops
+  | [], _, _ => ⟨fun _ => trivial, fun _ => rfl⟩
+  | op :: ops, s, g => by
+    have ih := C04_valid_hist_check ops (step s op).1 (specStep s.nz s.ixMax g op (idOf (step s op).2)).1
+    simp only [validHistB, MatrixProofs.ValidHist, Bool.and_eq_true]
+    exact ⟨fun ⟨h1, h2⟩ => ⟨C04_valid_check _ _ _ h1, ih.1 h2⟩,
+      fun ⟨h1, h2⟩ => ⟨C04_valid_complete _ _ _ h1, ih.2 h2⟩⟩
+
+theorem C04_noVacancy_check (s : State) (h : noVacancyB s = true) : s.nodes.removed = [] := by
+  unfold noVacancyB at h
+  exact List.isEmpty_iff.1 h
+
+/-- the spec-level side of "no vacancy": the live ids are `0..node_count` -/
+theorem C04_contig_check (g : G) (h : contigB g = true) (x : Nat) : g.live x = true ↔ x < g.nodeCount := by
+  unfold contigB at h
+  have := eq_of_beq h
+  rw [← mem_idsAsc, this, List.mem_range]
+
+theorem C04_notEdge_check (g : G) (a b : Nat) (h : notEdgeB g a b = true) : g.weight a b = none := by
+  unfold notEdgeB at h
+  exact Option.isNone_iff_eq_none.1 h
+
+theorem C04_zeroMut_check (nz : Bool) (g : G) (a b : Nat) (h : zeroMutB nz g a b = true) :
+    nz = true ∧ ∃ v, g.weight a b = some v := by
+  unfold zeroMutB at h
+  rw [Bool.and_eq_true] at h
+  exact ⟨h.1, Option.isSome_iff_exists.1 h.2⟩
+
+example : validHistB exampleInit (G.empty true) exampleOps = true := by decide
+example : validB false (G.empty true) (.addEdge 0 1 5) = false := by decide
 
 end PetgraphModel.C04T
